@@ -52,6 +52,7 @@ Mech_intended ==
     exoUnits         |-> "converted",
     exoChunked       |-> "values",
     exoReader        |-> "all_blocks",
+    scripReader      |-> "trailing_run",
     fileFill         |-> "encoding_dropped" ]  \* a grid read from a file does not keep the file's fill value in the variable's encoding
 
 \* as read in /repo now (d3a60c34, ef0ca9d1, e3484517, ea0c8869, 7ad7d162, b64583c9 and the five
@@ -68,6 +69,7 @@ Mech_observed ==
     exoUnits         |-> "converted",
     exoChunked       |-> "values",
     exoReader        |-> "all_blocks",          \* b64583c9
+    scripReader      |-> "trailing_run",        \* 168c59f3
     fileFill         |-> "encoding_dropped" ]   \* e9051200
 
 \* the code as it was when this check was built (before the five C07 repairs): kept so that the
@@ -100,6 +102,8 @@ MechOf(n) ==
     [] n = "only_exofill"   -> [ Mech_intended EXCEPT !.exoFillTest = "minus_one" ]
     [] n = "only_exostart"  -> [ Mech_intended EXCEPT !.exoBlockStart = "assign" ]
     [] n = "only_exoreader" -> [ Mech_intended EXCEPT !.exoReader = "last_block" ]
+    [] n = "only_scripreader" -> [ Mech_intended EXCEPT !.scripReader = "last_column_only" ]
+    [] n = "only_scripkeep"   -> [ Mech_intended EXCEPT !.scripReader = "keep" ]
     [] n = "only_filefill"  -> [ Mech_intended EXCEPT !.fileFill = "attrs_and_encoding" ]
 Mech == MechOf(MechName)
 
@@ -160,12 +164,9 @@ UgridNames(vs) == UgridBase
                   \cup (IF "edge_lon" \in vs THEN { "edge_lon", "edge_lat" } ELSE {})
                   \cup (vs \cap ConnNames)
 
-\* abstract meshes of the model (three sizes in g1/mix so that block offsets matter)
-MeshOf(g, shape) ==
-  CASE g = "g1" /\ shape = "uni" -> << <<0,1,2>>, <<0,2,3>>, <<0,3,1>> >>
-    [] g = "g1" /\ shape = "mix" -> << <<0,1,2>>, <<0,2,3,4>>, <<0,4,5>>, <<0,5,6,7,1>> >>
-    [] g = "g2" /\ shape = "uni" -> << <<0,1,2,3>>, <<0,3,4,5>> >>
-    [] g = "g2" /\ shape = "mix" -> << <<0,1,2,3>>, <<0,3,4>> >>
+\* abstract meshes of the model: a strip of faces whose SIZE SEQUENCE is the scenario's parameter
+\* (desc[g].shape, e.g. <<3, 6>>, <<5, 6, 7>>, <<3, 4, 3, 5>>), so TLC enumerates the size spreads
+MeshOf(g, shape) == StripMesh(shape)
 
 NoBack == [ st |-> "none", ok |-> TRUE, closed |-> FALSE ]
 
@@ -282,7 +283,8 @@ DialectRoundTrip ==
   ops = 0 => \A g \in Grids, fmt \in Fmts :
      LET E == FreshEnc(g, fmt) IN
        /\ WellFormed(E) /\ FacesMatch(fmt, mesh[g], Decoded(E))
-       /\ ReadBack(E, "all_blocks").st = "ok" /\ FacesMatch(fmt, mesh[g], ReadBack(E, "all_blocks").faces)
+       /\ LET R == [ exoReader |-> "all_blocks", scripReader |-> "trailing_run" ]
+          IN ReadBack(E, R).st = "ok" /\ FacesMatch(fmt, mesh[g], ReadBack(E, R).faces)
 
 TypeOK ==
   /\ \A g \in Grids : grid[g].open \/ grid[g].store = {}
@@ -341,7 +343,7 @@ OutScrip(g) ==
        tT |-> tmplTopo, tE |-> tmplEdge, ex |-> Follow(exports, g, st, grid[g].helper) ]
 OutToXarray(g, fmt) == CASE fmt = "ugrid" -> OutUgrid(g) [] fmt = "exodus" -> OutExodus(g) [] fmt = "scrip" -> OutScrip(g)
 OutWrite(k)  == [ ok |-> exports[k].helper = {}, enc |-> exports[k].enc ]
-OutReopen(k) == ReadBack(exports[k].enc, Mech.exoReader)
+OutReopen(k) == ReadBack(exports[k].enc, [ exoReader |-> Mech.exoReader, scripReader |-> Mech.scripReader ])
 
 (* ---- the machine ---------------------------------------------------------------- *)
 Init ==
@@ -384,7 +386,7 @@ CexView == << desc, [ g \in Grids |-> Feature(g) ],
                                              exports[k].jud, exports[k].helper, exports[k].written,
                                              exports[k].mem, exports[k].file >> ],
               tmplTopo, tmplEdge, ops, bad >>
-EmitCex == bad = {} \/ PrintT(<<"CEX", desc, hist, bad>>)
+EmitCex == bad = {} \/ PrintT(<<"CEX", desc, hist, bad, mesh>>)
 GenView == << desc, [ g \in Grids |-> Feature(g) ],
               [ k \in DOMAIN exports |-> << exports[k].g, exports[k].fmt, exports[k].status, exports[k].alias >> ],
               tmplTopo, tmplEdge, ops >>
